@@ -107,12 +107,12 @@ def gen_cases(ctx):
     for t, sh in chosen:
         yield t, sh, "state", "enum<=4"
     # permuted field order and one-element wrappers, 1-4 fields
-    for _ in range(ctx.budget(300, 3000)):
+    for _ in range(ctx.budget(300, 2000)):
         k = rng.choice([1, 2, 2, 3, 3, 4, 4, 4])
         t = G.random_tree(rng, k, p_wrap=0.25)
         yield t, G.assign_shapes(rng, t, k, lens=(0, 1, 2, 3), allow_nd=False), "state", "random<=4"
     # 5-7 fields
-    n = ctx.budget(350, 5000)
+    n = ctx.budget(350, 3000)
     made = 0
     while made < n:
         k = rng.choice([5, 5, 5, 6, 6, 7])
@@ -124,7 +124,7 @@ def gen_cases(ctx):
         made += 1
         yield t, sh, "state", "random5-7"
     # end to end
-    n = ctx.budget(70, 1000)
+    n = ctx.budget(70, 600)
     made = 0
     while made < n:
         k = rng.choice([1, 2, 2, 3, 3, 3, 4, 4, 4, 5, 5, 6])
@@ -194,18 +194,18 @@ def run(ctx):
         cases.append(coq_case(tree, shapes, obs))
         meta.append(m)
     res = coqio.run_cases(ctx.scratch, "c01", IMPORTS, "case_t", cases, {"tie": "tie_ok", "spec": "spec_ok"},
-                          extra=EXTRA, shard=250)
+                          extra=EXTRA, shard=400)
     out = Outcome(evaluations=len(meta) + len(pyfail), distinct_nontrivial=nontrivial, rule=RULE,
                   samples=[sample(m) for m in pick(meta)], distribution=dist, traces_validated=len(meta),
                   exhaustive=(ctx.tier == "thorough"))
     out.extra["exhaustive_domain"] = ("every splitter tree over <=4 fields (canonical field order) x every length "
                                       "vector in 0..3 at State level" if ctx.tier == "thorough" else "sampled")
-    for m, note in pyfail[:20]:
+    for m, note in sorted(pyfail, key=lambda x: len(json.dumps(case_json(x[0]))))[:6]:
         out.failures.append(Failure(case=case_json(m), observed={"obs": m["obs"], **m["details"]},
                                     expected=expected(ctx, m, "spec"), kind="spec", note=note))
     spec_bad = set(res["spec"])
     for kind in ("spec", "tie"):
-        for i in res[kind][:20]:
+        for i in sorted(res[kind], key=lambda i: len(json.dumps(case_json(meta[i]))))[:6]:
             if kind == "tie" and i in spec_bad:
                 continue
             m = meta[i]
